@@ -73,8 +73,9 @@ Inductive gbs :=
 | GData (d : list N)
 | GTooLarge.                               (* self._raise(BodySizeError(), RequestError) *)
 
-(* body_mixin.py:262-280
-     max_content_length = config.max_memfile_size ; content_length = self.content_length
+(* body_mixin.py:262-283
+     max_content_length = config.max_memfile_size
+     content_length = -1 if self.chunked else self.content_length      (the caller form_text_with passes it)
      if content_length > max_content_length: raise 413
      if content_length < 0: content_length = max_content_length + 1
      data = read(content_length)
@@ -98,7 +99,9 @@ Definition form_text_with (m : list (list N * (Z * list N)))
            (s : stream) (buf : nat) (maxb : option nat) (cl : Z) (chunked : bool) : tresp :=
   match request_body_with m s buf maxb cl chunked with
   | RBody b _ s' =>
-    match get_body_string b cl (Z.of_nat buf) with
+    (* fix F37 (ca2ec78): content_length = -1 if self.chunked else self.content_length — a chunked body
+       ignores a Content-Length sent next to it, as _body already did *)
+    match get_body_string b (if chunked then (-1)%Z else cl) (Z.of_nat buf) with
     | GData d => TText d s'
     | GTooLarge => match raise_status m cls_BodySizeError cls_RequestError with
                    | Some c => TStatus c s'
